@@ -254,10 +254,17 @@ func init() {
 					if ob != nil {
 						rq.OrderBy = []Order{{E: Col("t.cnt"), Desc: ob[0].Desc}, {E: Col("t.a")}}
 					}
+					// ... and the same LIMIT / ORDER BY over the retracting source nested in a FROM subquery
+					nrq := NewQuery()
+					nrq.From = &From{Sub: cloneQuery(rq), Alias: "y"}
+					nrq.Proj = []Proj{{Star: true}}
 					for _, m := range c05Modes {
 						cases = append(cases, cs{q, m}, cs{n, m})
 						if len(rows) > 0 && (lim == 1 || lim == 3 || r.Thorough()) {
 							cases = append(cases, cs{rq, m})
+							if m == "csv" || m == "stream_native" || r.Thorough() {
+								cases = append(cases, cs{nrq, m})
+							}
 						}
 					}
 				}
@@ -288,7 +295,7 @@ func init() {
 			}
 		}
 		r.Bound = map[string]interface{}{"tables": len(tables), "distinct_rows": nrows, "max_rows": 4, "limits": limits, "order_by_forms": len(orders), "modes": c05Modes, "cases": len(cases)}
-		r.Rule = "LIMIT n (n=0..4) x ORDER BY {none, a, a DESC, b DESC+a} x every multiset of <=4 rows over 3 (4) distinct rows (duplicates straddle the cut) x {top level, inside a FROM subquery, over a counting-triggered GROUP BY that emits retractions} x all five output modes, plus a 130-line JSON source (three parser batches) with limits around the batch boundaries, through the real root command in-process; each mode's output is parsed (final table frame, csv, json, consolidated native stream) and compared with the reference; non-trivial = case where the limit actually cuts rows"
+		r.Rule = "LIMIT n (n=0..4) x ORDER BY {none, a, a DESC, b DESC+a} x every multiset of <=4 rows over 3 (4) distinct rows (duplicates straddle the cut) x {top level, inside a FROM subquery, over a counting-triggered GROUP BY that emits retractions, the latter again inside a FROM subquery} x all five output modes, plus a 130-line JSON source (three parser batches) with limits around the batch boundaries, through the real root command in-process; each mode's output is parsed (final table frame, csv, json, consolidated native stream) and compared with the reference; non-trivial = case where the limit actually cuts rows"
 		r.Assume("values are short, comma/quote free Int/String/NULL so every format parses unambiguously", "tie order unspecified; a tie group split by the cut may contribute any of its members", "LIMIT without ORDER BY: any min(n,N) rows")
 		cache := newFPCache()
 		enum.Parallel(len(cases), func(i int) {
